@@ -193,6 +193,19 @@ pub fn interval(args: &[String]) {
                 if sol.nfev != p.count.get() { fail("c18-nfev", format!("nfev = {} but the stepper made {} right-hand-side evaluations", sol.nfev, p.count.get())); }
                 if sol.njev != p.jcount.get() { fail("c18-njev", format!("njev = {} but {} Jacobian evaluations were made", sol.njev, p.jcount.get())); }
                 if sol.nstep < sol.naccpt { fail("c18-nstep", format!("nstep {} < naccpt {}", sol.nstep, sol.naccpt)); }
+                // C11 through solve_ivp: no reported interval is longer than max_step (1 % stretch on the last one), RK4's default
+                // step span / 100 included (a first_step above max_step is outside the precondition)
+                if let Some(hm) = c.maxstep {
+                    if !use_teval && c.first.map_or(true, |h| h.abs() <= hm) {
+                        let m = sol.t.len();
+                        for k in 1..m {
+                            let len = (sol.t[k] - sol.t[k - 1]).abs();
+                            let lim = if k == m - 1 { 1.01 * hm } else { hm };
+                            // (the two ends are rounded to the grid of t: allow two ulps of the larger one)
+                            if len > lim * (1.0 + 1e-12) + 4.0 * f64::EPSILON * sol.t[k].abs().max(sol.t[k - 1].abs()) { fail("c11-max-step", format!("reported interval {} has length {} > max_step {}", k, len, hm)); break; }
+                        }
+                    }
+                }
                 if !use_teval && c.first.is_none() && !terminal_fired && sol.status != Status::UserInterrupt {
                     if sol.naccpt != sol.t.len() - 1 { fail("c18-naccpt", format!("naccpt = {} but {} intervals were reported", sol.naccpt, sol.t.len() - 1)); }
                 }
@@ -232,6 +245,30 @@ pub fn interval(args: &[String]) {
             }
         }
         out("iv", 100000 + case, &c, "stiff", key, &why, &extra);
+    }
+    // C11 through solve_ivp: a max_step below RK4's default step (span / 100), no first_step, both directions
+    {
+        let mut k = 0;
+        for (x0, xend, div) in [(0.0, 2.0, 250.0), (1.0, -1.5, 1000.0), (-0.3, 0.7, 130.0)] {
+            let c = Cfg { kind: Kind::Harmonic, method: Method::RK4, x0, xend, rtol: 1e-6, atol: 1e-9, first: None, maxstep: Some((xend - x0 as f64).abs() / div), nmax: None };
+            let p = Prob::new(Kind::Harmonic);
+            let hm = c.maxstep.unwrap();
+            let (mut why, mut key) = (String::new(), "");
+            match catch_unwind(AssertUnwindSafe(|| solve_ivp(&p, x0, xend, &p.y0(), c.opts()))) {
+                Ok(Ok(sol)) => {
+                    let m = sol.t.len();
+                    for j in 1..m {
+                        let len = (sol.t[j] - sol.t[j - 1]).abs();
+                        let lim = if j == m - 1 { 1.01 * hm } else { hm };
+                        if len > lim * (1.0 + 1e-12) + 4.0 * f64::EPSILON * sol.t[j].abs().max(sol.t[j - 1].abs()) { key = "c11-max-step"; why = format!("RK4 without first_step: reported interval {} has length {} > max_step {} ({} samples)", j, len, hm, m); break; }
+                    }
+                }
+                Ok(Err(e)) => { key = "c11-max-step"; why = format!("solve_ivp returns Err({:?})", e).replace('"', "'"); }
+                Err(_) => { key = "c04-hang-or-panic"; why = "solve_ivp panicked".into(); }
+            }
+            out("iv", 530000 + k, &c, "rk4-max-step", key, &why, "");
+            k += 1;
+        }
     }
     // C18 where the corrector struggles: right-hand sides that leave their domain (sqrt, ln), a solution that overflows, a
     // loose tolerance (one or two Newton iterations), a Newton iteration limit of 1 (low-level BDF) — every exit of the
@@ -938,7 +975,7 @@ pub fn protocol(args: &[String]) {
             // ---- C11 step limits
             let hmax = c.maxstep.unwrap_or(span);
             for k in 1..ncb {
-                if c.method == Method::RK4 { break; } // fixed step: first_step is the step, there is no max_step
+                if c.method == Method::RK4 { break; } // low-level RK4 takes the step it is given; it has no max_step option (solve_ivp's RK4: interval-check)
                 let len = (rec.cbs[k].x - rec.cbs[k].xold).abs();
                 let lim = if k == ncb - 1 { 1.01 * hmax } else { hmax };
                 if len > lim * (1.0 + 1e-12) { fail("c11-max-step", format!("accepted step {} has length {} > max_step {}", k, len, hmax), &mut why, &mut key); }
